@@ -181,7 +181,7 @@ def mutate(rng, l):
 def cases(rng, tier):
     yield from boundary_cases()
     yield from exhaustive_cases(tier)
-    n = 500 if tier == "thorough" else 70
+    n = 500 if tier == "thorough" else 45
     base = []
     for i in range(n):
         l = burst_case(rng, tier) if i % 3 == 0 else random_case(rng, tier)
